@@ -37,9 +37,20 @@ theorem facts_as_modelled :
     Gen.buildPrecertTBSFirst = "data, err := removeExtension(tbsData, OIDExtensionCTPoison)" ∧
     Gen.removeExtensionEdit = ["tbs.Extensions = append(tbs.Extensions[:extAt], tbs.Extensions[extAt+1:]...)"] ∧
     Gen.leafFromChainCalls = ["x509.BuildPrecertTBS(cert.RawTBSCertificate, preIssuer)"] ∧
-    Gen.leafForEmbeddedCalls = ["x509.RemoveSCTList(cert.RawTBSCertificate)"] := by
+    Gen.leafForEmbeddedCalls = ["x509.RemoveSCTList(cert.RawTBSCertificate)"] ∧
+    -- the authority-key-id update of BuildPrecertTBS (`akiUpdate`, `setFirst`, `eraseFirst`, `preIssuerEdit` are its transcription)
+    Gen.buildPrecertIssuerKeyIDLoop =
+      "for _, ext := range preIssuer.Extensions { if ext.Id.Equal(OIDExtensionAuthorityKeyId) { issuerKeyID = ext.Value break } }" ∧
+    Gen.buildPrecertKeyAtLoop =
+      "for i, ext := range tbs.Extensions { if ext.Id.Equal(OIDExtensionAuthorityKeyId) { keyAt = i break } }" ∧
+    Gen.buildPrecertAkiConds = ["if keyAt >= 0", "  if issuerKeyID != nil", "  else", "else if issuerKeyID != nil"] ∧
+    Gen.buildPrecertValueEdit = ["tbs.Extensions[keyAt].Value = issuerKeyID"] ∧
+    Gen.buildPrecertExtEdits = ["tbs.Extensions = append(tbs.Extensions[:keyAt], tbs.Extensions[keyAt+1:]...)",
+                                "tbs.Extensions = append(tbs.Extensions, authKeyIDExt)"] ∧
+    Gen.buildPrecertAppended = ["authKeyIDExt := pkix.Extension{ Id: OIDExtensionAuthorityKeyId, Critical: false, Value: issuerKeyID, }"] ∧
+    Gen.buildPrecertIssuerEdit = ["tbs.Issuer.FullBytes = preIssuer.RawIssuer"] := by
   refine ⟨by decide, by decide, by decide, by decide, by decide, by decide, by decide, by decide, by decide, by decide,
-    by decide, by decide, by decide, by decide⟩
+    by decide, by decide, by decide, by decide, by decide, by decide, by decide, by decide, by decide, by decide, by decide⟩
 
 /-- the SCT-list length prefixes are two bytes wide for the regenerated limits (`byteCount(maxlen) = 2`) -/
 def genLim : SctLimits := ⟨Gen.sctItemMin, Gen.sctItemMax, Gen.sctListMin, Gen.sctListMax⟩
@@ -115,11 +126,11 @@ theorem remove_exact (oid bs : Bytes) (t : Tbs) (h : parseTbs bs = some t) :
         parseTbs out = some (t.withExts (A ++ B)) := by
   obtain ⟨hbs, hw⟩ := parseTbs_eq h
   constructor
-  · simp only [removeExt, h, removeExtT]
+  · simp only [removeExt, h, removeExtT, removeOneGo_eq]
     rw [← removeOne_none_iff]
     cases removeOne oid (t.exts.getD []) <;> simp
   · intro out ho
-    simp only [removeExt, h, removeExtT] at ho
+    simp only [removeExt, h, removeExtT, removeOneGo_eq] at ho
     cases hr : removeOne oid (t.exts.getD []) with
     | none => simp [hr] at ho
     | some r =>
@@ -156,6 +167,28 @@ theorem remove_exact (oid bs : Bytes) (t : Tbs) (h : parseTbs bs = some t) :
         simp [marshalTbs, Tbs.fields, optList, concatTlvs_append, concatTlvs, extsField, Tbs.pre, encExts_append]
       · rw [← ho]
         exact parseTbs_marshal _ hw'
+
+/-- **The search loop of `removeExtension` — regenerated from the source — deletes exactly the one match.** `removeOneGo` folds
+`Gen.removeExtensionStep` (the loop body as it stands in x509.go) over the extensions and then applies the regenerated
+`extAt == -1` test: it fails iff the OID occurs 0 or ≥ 2 times, and otherwise returns the list without its single match. -/
+theorem remove_loop_exact (oid : Bytes) (es : List Ext) :
+    (removeOneGo oid es = none ↔ countOid oid es ≠ 1) ∧
+    ∀ r, removeOneGo oid es = some r →
+      ∃ A x B, es = A ++ x :: B ∧ r = A ++ B ∧ x.oid = oid ∧ (∀ e ∈ A ++ B, e.oid ≠ oid) := by
+  rw [removeOneGo_eq]
+  refine ⟨removeOne_none_iff oid es, ?_⟩
+  intro r hr
+  obtain ⟨A, x, B, h1, h2, h3, h4, h5⟩ := removeOne_spec hr
+  refine ⟨A, x, B, h1, h2, h3, ?_⟩
+  intro e he
+  simp at he
+  rcases he with he | he
+  · exact h4 e he
+  · exact h5 e he
+
+example : removeOneGo poisonOid [exKU, exPoison, exAKI] = some [exKU, exAKI] ∧ removeOneGo poisonOid [exKU, exAKI] = none ∧
+    removeOneGo poisonOid [exPoison, exKU, exPoison] = none ∧ removeOneGo poisonOid [exPoison] = some [] := by
+  decide
 
 /-- `[keyUsage, poison]`: the poison is removed, `a3 27 30 25 … ` becomes `a3 12 30 10 …`, the outer `30 68` becomes `30 53` -/
 example : parseTbs (marshalTbs (exBase.withExts [exKU, exPoison])) = some (exBase.withExts [exKU, exPoison]) ∧
